@@ -263,7 +263,10 @@ def _builtin(fa, b, e, args, kw, env):
         if not args:
             return V(('ITER', '?', 'D', VTOP))
         if any(isinstance(x, ast.Starred) for x in e.args):
-            return V(('ITER', src_of(a0), 'D', V(fresh('tuple', fa.site(e), VTOP))))
+            el = set()
+            for x, xn in zip(args, e.args):
+                el |= elements_of(elements_of(x)) if isinstance(xn, ast.Starred) else elements_of(x)
+            return V(('ITER', src_of(a0), 'D', V(fresh('tuple', fa.site(e), depth_trunc(frozenset(el), 2)))))
         sts = [iter_state(a) for a in args]
         st = 'H' if all(s == 'H' for s in sts) else 'D'
         if len(args) <= 4:
@@ -404,7 +407,10 @@ def _ext(fa, nm, e, args, kw, env):
             return VTOP
         fill = kw.get('fillvalue', VNONE)
         if any(isinstance(x, ast.Starred) for x in e.args):
-            return V(('ITER', src_of(a0), 'D', V(fresh('tuple', fa.site(e), VTOP))))
+            el = set(fill)
+            for x, xn in zip(args, e.args):
+                el |= elements_of(elements_of(x)) if isinstance(xn, ast.Starred) else elements_of(x)
+            return V(('ITER', src_of(a0), 'D', V(fresh('tuple', fa.site(e), depth_trunc(frozenset(el), 2)))))
         sts = [iter_state(a) for a in args]
         st = 'H' if any(s == 'H' for s in sts) else 'D'
         if len(args) <= 4:
@@ -595,22 +601,56 @@ def _bind_actuals(fn, e, args, kw, bound):
 
 
 def _subst(v, actual, depth=0):
+    """Instantiate a callee summary with the actual arguments."""
     if depth > 3:
         return v
     out = set()
     for a in v:
-        if a[0] == 'ARG':
+        k = a[0]
+        if k == 'ARG':
             if a[1] in actual:
                 out |= actual[a[1]][0]
             else:
                 out.add(TOP)   # defaulted parameter
-        elif a[0] == 'FRESH' and a[3]:
+        elif k == 'FRESH' and a[3]:
             out.add(('FRESH', a[1], a[2], _subst(a[3], actual, depth + 1)))
-        elif a[0] == 'TUPLE':
+        elif k == 'TUPLE':
             out.add(('TUPLE', tuple(_subst(x, actual, depth + 1) for x in a[1])))
-        elif a[0] == 'ITER' and a[3]:
+        elif k == 'ITER' and a[1] in actual and a[3] is None:
+            for b in actual[a[1]][0]:
+                if b[0] == 'ITER':
+                    out.add(('ITER', b[1], 'D' if a[2] == 'D' else b[2], b[3]))
+                elif b[0] in ('ARG', 'TABLE', 'SELFATTR'):
+                    out.add(('ITER', src_of(V(b)), a[2], None))
+                elif b[0] == 'DATA':
+                    out.add(('ITER', b[1], 'D', None))
+                elif b[0] == 'FRESH':
+                    out.add(('ITER', 'local', 'D', b[3]))
+                elif b[0] == 'GROUP':
+                    out.add(('ITER', b[1], a[2], V(('ROW', b[1]))))
+                elif b != UNDEF:
+                    out.add(('ITER', '?', a[2], VTOP))
+        elif k == 'ITER' and a[3]:
             out.add(('ITER', a[1], a[2], _subst(a[3], actual, depth + 1)))
-        elif a[0] in ('SELFATTR', 'SELF'):
+        elif k in ('ROW', 'HDR') and a[1] in actual:
+            for b in actual[a[1]][0]:
+                if b[0] in ('ARG', 'TABLE', 'DATA', 'SELFATTR', 'GROUP'):
+                    out.add((k if b[0] not in ('DATA', 'GROUP') else 'ROW', src_of(V(b))))
+                elif b[0] == 'ITER':
+                    if b[3] is None:
+                        out.add(('ROW' if (k == 'ROW' or b[2] == 'D') else 'HDR', b[1]))
+                    else:
+                        out |= b[3]
+                elif b[0] == 'FRESH':
+                    out |= b[3] or {UNDEF}
+                elif b[0] in ('ROW', 'HDR'):
+                    out.add(CELL)
+                elif b != UNDEF:
+                    out.add(TOP)
+        elif k in ('TABLE', 'DATA', 'GROUP') and a[1] in actual:
+            s = src_of(actual[a[1]][0])
+            out.add((k, s if s != '?' else a[1]))
+        elif k in ('SELFATTR', 'SELF'):
             out.add(TOP)
         else:
             out.add(a)
